@@ -124,6 +124,7 @@ static void random_histories(const char *mode, uint64_t ncases, size_t maxn, uns
 		// signed point types: the whole universe is moved so that it lies below zero, straddles it, or ends exactly at -1 / 0
 		int64_t off = 0;
 		if(negative && std::is_signed_v<P>) { if(gen == 4) span = 1000000; switch(r.below(4)) { case 0: off = (int64_t)span * 2 + 7; break; case 1: off = (int64_t)span / 2; break; case 2: off = (int64_t)span + 1; break; default: off = (int64_t)span; break; } }
+		if constexpr (std::is_integral_v<P> && sizeof(P) < 4) { span = std::min<uint64_t>(span, 4000); if(off > 9000) off = 9000; } // (endpoints must fit the point type: lo <= hi is a precondition)
 		case_detail("N=%zu gen=%d span=%llu offset=-%lld seed=%llu", N, gen, (unsigned long long)span, (long long)off, (unsigned long long)cs);
 		std::vector<INode<P>> pool(N);
 		std::vector<INode<P> *> out, live;
@@ -198,6 +199,9 @@ int main(int argc, char **argv) {
 	random_histories<int>("rand:int", scaled(120, 3000), 200, 300, 200);
 	random_histories<int>("rand:int-negative", scaled(120, 3000), 200, 300, 200, true);
 	random_histories<int64_t>("rand:i64-negative", scaled(60, 1500), 200, 300, 200, true);
+	random_histories<double>("rand:double-negative", scaled(60, 1500), 200, 300, 200, true); // point types are a template parameter: floating point too
+	random_histories<double>("rand:double", scaled(30, 800), 200, 300, 200);
+	random_histories<short>("rand:short-negative", scaled(30, 800), 60, 200, 150, true);
 	random_histories<uint64_t>("rand:u64", scaled(120, 3000), 200, 300, 200);
 	random_histories<int>("rand:int-large", scaled(4, 100), t ? 5000 : 1500, t ? 12000 : 3000, t ? 5000 : 600);
 	random_histories<uint64_t>("rand:u64-large", scaled(4, 100), t ? 5000 : 1500, t ? 12000 : 3000, t ? 5000 : 600);
